@@ -20,8 +20,14 @@ INF = math.inf
 DEN = 8.0
 
 
-def mk(q, r, q0):
-    return Time(INF, INF) if q == BIG else Time(float(q0 + q), r / DEN)
+def mk(q, r, q0, via_update=False):
+    t = Time(INF, INF) if q == BIG else Time(float(q0 + q), r / DEN)
+    if via_update:
+        # the object reaches its value through Time.update (how event handlers advance time stamps), from another value
+        obj = Time(float(q0 + 1), 0.375) if q != BIG and q <= 1 else Time(float(q0 - 1), 0.625)
+        obj.update(t)
+        return obj
+    return t
 
 
 def same(t, q, r, q0):
@@ -36,22 +42,26 @@ def table(path):
     n = 0
     for q0 in (0, 2 ** 31, 2 ** 52 - 16):
         for q, r, d, rq, rr in tab["adds"]:
-            n += 1
-            res = mk(q, r, q0) + (INF if d == BIG else d / DEN)
-            if not same(res, rq, rr, q0):
-                fails.append(dict(what="Time.__add__", q0=q0, args=[q, r, d], got=repr(res), want=[rq, rr]))
+            for upd in (False, True):
+                n += 1
+                res = mk(q, r, q0, upd) + (INF if d == BIG else d / DEN)
+                if not same(res, rq, rr, q0):
+                    fails.append(dict(what="Time.__add__" + (" (object set by update)" if upd else ""), q0=q0, args=[q, r, d],
+                                      got=repr(res), want=[rq, rr]))
         ops = ["__lt__", "__le__", "__gt__", "__ge__", "__eq__", "__ne__"]
         for row in tab["cmps"]:
             sq, sr, tq, tr = row[:4]
-            s, t = mk(sq, sr, q0), mk(tq, tr, q0)
-            got = [int(bool(x)) for x in (s < t, s <= t, s > t, s >= t, s == t, s != t)]
-            n += 6
-            if got != row[4:]:
-                bad = [ops[i] for i in range(6) if got[i] != row[4 + i]]
-                fails.append(dict(what="Time comparison " + ",".join(bad), q0=q0, args=row[:4], got=got, want=row[4:]))
+            for us, ut in ((False, False), (True, False), (False, True), (True, True)):
+                s, t = mk(sq, sr, q0, us), mk(tq, tr, q0, ut)
+                got = [int(bool(x)) for x in (s < t, s <= t, s > t, s >= t, s == t, s != t)]
+                n += 6
+                if got != row[4:]:
+                    bad = [ops[i] for i in range(6) if got[i] != row[4 + i]]
+                    fails.append(dict(what="Time comparison " + ",".join(bad) + (" (objects set by update)" if us or ut else ""),
+                                      q0=q0, args=row[:4], got=got, want=row[4:], updated=[us, ut]))
         for sq, sr, tq, tr, want in tab["subs"]:
             n += 1
-            got = mk(sq, sr, q0) - mk(tq, tr, q0)
+            got = mk(sq, sr, q0, True) - mk(tq, tr, q0)
             if got != want / DEN:
                 fails.append(dict(what="Time.__sub__", q0=q0, args=[sq, sr, tq, tr], got=got, want=want / DEN))
         if q0 < 2 ** 40:
@@ -127,6 +137,11 @@ def trace(seed, n, path):
     pairs = [(a, b) for a in norm[:len(quots) * len(rems)] for b in rnd.sample(norm, 6)]
     pairs += [(a, a) for a in norm[:40]]
     pairs += [(Time(q, one_m), Time(q + 1.0, 0.0)) for q in quots] + [(Time(q + 1.0, 0.0), Time(q, one_m)) for q in quots]
+    def updated(t):
+        o = Time(t.quotient + 2.0, 0.5) if math.isfinite(t.quotient) else Time(0.0, 0.5)
+        o.update(t)
+        return o
+    pairs += [(updated(a), b) for a, b in pairs[:200]] + [(a, updated(b)) for a, b in pairs[:200]]
     for a, b in pairs:
         emit(op="cmp", a=tkey(a), b=tkey(b), lt=int(a < b), le=int(a <= b), gt=int(a > b), ge=int(a >= b),
              eq=int(a == b), ne=int(a != b), rat=int(value(a) < value(b)))
